@@ -53,11 +53,18 @@ func c15Content(f, cid int, valid, layoutScenario bool) string {
 		if cid%2 == 0 { // a key only every other version has: when it is gone from the file it is gone from the render
 			fm += fmt.Sprintf("extra: x%d\n", cid)
 		}
+		// a key whose type changes from version to version (text, number, absent) and that conditions read
+		switch cid % 3 {
+		case 0:
+			fm += "status: draft\n"
+		case 1:
+			fm += fmt.Sprintf("status: %d\n", cid)
+		}
 		if layoutScenario {
 			fm += "layout: lay\n"
 		}
 		// elements whose evaluation writes attributes, driven by a front-matter value that changes from version to version
-		body := fmt.Sprintf("<p>P%d v={{ v }}</p><template include=\"comp.vuego\"></template><small>x={{ extra }};</small>", c15Body(cid)) + c15Toggles +
+		body := fmt.Sprintf("<p>P%d v={{ v }}</p><template include=\"comp.vuego\"></template><small>x={{ extra }};</small><em v-if=\"status != 'draft'\">published</em><em v-else>draft</em><em v-show=\"status == 1\">one</em><b :data-s=\"status != nil ? 'set' : 'unset'\">s</b>", c15Body(cid)) + c15Toggles +
 			// a variable of the front-matter is read, then assigned at the page's root scope: the assignment belongs to this render only
 			`<u>{{ st }}</u><template st="late" :v2="v"></template><u>{{ st }}</u>`
 		if layoutScenario { // a named slot handed to the layout: its nodes must not be shared with the cache
